@@ -1074,14 +1074,14 @@ func RaceWith[T any](sources ...Observable[T]) func(Observable[T]) Observable[T]
 				isWinner := hasWinner && winner == int32(j)
 
 				mu.Lock()
-				if !hasWinner {
-					// No winner yet, store the subscription
+				if !hasWinner || isWinner {
+					// No winner yet, or this source won synchronously during its own
+					// subscription: store the subscription so that the teardown releases it.
 					subscriptions[j] = sub
-				} else if !isWinner {
+				} else {
 					// Another source won, unsubscribe this one
 					sub.Unsubscribe()
 				}
-				// If this source won, keep the subscription active
 				mu.Unlock()
 			}
 
